@@ -84,6 +84,7 @@ func pricedClasses() []priced {
 		out = append(out, priced{name: name, act: act, field: field, extra: extra, times: times})
 	}
 	add("ChangeOwnerAddress", "ChangeOwnerAddress", call(A0, S0, vmcommon.BuiltInFunctionChangeOwnerAddress, B0), none, 1)
+	add("ChangeOwnerAddress/to-the-current-owner", "ChangeOwnerAddress", call(A0, S0, vmcommon.BuiltInFunctionChangeOwnerAddress, A0), none, 1)
 	add("ClaimDeveloperRewards", "ClaimDeveloperRewards", call(A0, S0, vmcommon.BuiltInFunctionClaimDeveloperRewards), none, 1)
 	add("SetUserName", "SaveUserName", call(uni.D0, B0, vmcommon.BuiltInFunctionSetUserName, []byte("name")), none, 1)
 	add("SaveKeyValue/new", "SaveKeyValue", call(A0, A0, vmcommon.BuiltInFunctionSaveKeyValue, []byte("new"), []byte("value")), kv, 1)
